@@ -128,11 +128,16 @@ class Gen:
         if proto_type == betterproto.TYPE_STRING:
             if self.big and t.draw(40, "bigstr?") == 39:
                 return "B" * 20000
+            if self.big and t.draw(14, "edge-len-str?") == 13:
+                # payload lengths around the 1->2 and 2->3 byte varint boundaries
+                return "e" * t.choice([125, 126, 127, 128, 129, 16382, 16383, 16384], "edge-len")
             s = t.choice(STR, "str")
             return s or ("k" if nonempty_str else s)
         if proto_type == betterproto.TYPE_BYTES:
             if self.big and t.draw(40, "bigbytes?") == 39:
                 return b"\xab" * 20000
+            if self.big and t.draw(14, "edge-len-bytes?") == 13:
+                return b"\x5a" * t.choice([125, 126, 127, 128, 129, 16382, 16383, 16384], "edge-len")
             return t.choice(BYT, "bytes")
         if proto_type == betterproto.TYPE_ENUM:
             members = list(enum_cls)
